@@ -85,6 +85,9 @@ PROPS["C18"] = dict(
         dict(name="rate_exact", mod="v2", pkg="priority/utils", overlay="harness/v2/utils", harness="^VerifC18_nonfatal_rate_exact$", native=True,
              only_as_refinement=True, always_in_thorough=True, timeout=120000,
              params=dict(quick=dict(list=[1], Qbits=[4]), thorough=dict(list=[0, 1, 5], Qbits=[4]))),
+        # suitable => non-fatal, monotone in the limit: exact floats (cvc5) on the catalogue, symbolic quantity and limits
+        dict(name="suitable_exact", mod="v2", pkg="priority/utils", overlay="harness/v2/utils", harness="^VerifC18_suitable_exact$", native=True, timeout=120000,
+             params=dict(quick=dict(list=[5], Qbits=[3]), thorough=dict(list=[5, 0], Qbits=[3]))),
         dict(mod="v2", pkg="priority/utils", overlay="harness/v2/utils", harness="^VerifC18_pickup", native=False,
              params=dict(quick=dict(n=[2], M=[6]), thorough=dict(n=[3], M=[12]))),
     ],
@@ -96,10 +99,15 @@ _JOIN_ASSUME = ["time: one symbolic non-decreasing clock; every clock reading ma
                 "environment: the consumer eventually takes every slice (sink), releases a no-copy slice only after it was delivered, may overwrite copy-mode slices at once",
                 "elements are symbolic machine integers; the code under test is data-independent"]
 
+# larger JoinSize with two input slices: the fit / split boundaries only open up from JoinSize 5 on
+_UNITE_WIDE = dict(mod="v2", pkg="join/unite", overlay="harness/v2/unite", harness="^VerifC03_unite_",
+                   params=dict(quick=dict(JS=[5, 6], K=[2], T=[1]), thorough=dict(JS=[5, 6, 7, 8], K=[2], T=[1])))
+
 def _join_groups(tier_params):
     return [
         dict(mod="v2", pkg="join", overlay="harness/v2/join", harness="^VerifC03_join_", params=tier_params("join")),
         dict(mod="v2", pkg="join/unite", overlay="harness/v2/unite", harness="^VerifC03_unite_", params=tier_params("unite")),
+        _UNITE_WIDE,
         dict(mod="v1", pkg="join", overlay="harness/v1/join", harness="^VerifC03_v1join_normal", params=tier_params("join")),
     ]
 
@@ -135,21 +143,21 @@ PROPS["C11"] = dict(
     level_note="Bounds in evidence.bounds. Trusted: as C03.",
     technique="symbolic execution of go/ssa with forked select outcomes; SMT (z3)",
     bounds=_JOIN_BOUNDS, assumptions=_JOIN_ASSUME,
-    groups=[dict(mod="v2", pkg="join/unite", overlay="harness/v2/unite", harness="^VerifC03_unite_", params=_jp("unite"))])
+    groups=[dict(mod="v2", pkg="join/unite", overlay="harness/v2/unite", harness="^VerifC03_unite_", params=_jp("unite")), _UNITE_WIDE])
 
-_LIM = dict(quick=dict(M=[0, 1, 2, 3, 4, 5]), thorough=dict(M=[0, 1, 2, 3, 4, 5, 6, 7, 8, 9]))
+_LIM = dict(quick=dict(M=[0, 1, 2, 3, 4, 5]), thorough=dict(M=[0, 1, 2, 3, 4, 5, 6, 7]))
 for _pid in ("C04", "C12"):
     PROPS[_pid] = dict(
         level="model_checking",
         level_text="Bounded symbolic execution of the real limit New+main on M symbolic elements with Quantity and Interval UNCONSTRAINED valid 64-bit values (the batch loop is bounded by the "
                    "elements supplied, not by Quantity) and a symbolic clock: batch k starts >= k Intervals after creation, batches hold <= Quantity sends, sends of batches a<b are "
                    ">= (b-a-1) Intervals apart (these imply the two stated count formulas by the 3-line derivation in DESIGN 7 C04); pass-through, close, pause counts for C12.",
-        level_note="Bound: M elements (quick <=5, thorough <=9), buffered (prefilled) and unbuffered (parked producer) input. Clock readings < 2^62 ns. Trusted: engine, time model.",
+        level_note="Bound: M elements (quick <=5, thorough <=7), buffered (prefilled) and unbuffered (parked producer) input. Clock readings < 2^62 ns. Trusted: engine, time model.",
         technique="symbolic execution of go/ssa with a symbolic clock; Int-encoded SMT queries (z3)",
-        bounds=dict(quick="M in 0..5", thorough="M in 0..9"),
+        bounds=dict(quick="M in 0..5", thorough="M in 0..7"),
         assumptions=["time model of DESIGN 3.6: lower bounds only (arbitrary delays anywhere); Sleep(d) advances by >= d",
                      "count formulas follow from the per-batch facts: count <= (k+1)*Q and t >= k*I  =>  count <= Q*(floor(t/I)+1); window: (j-i-1)*I <= W => count <= Q*(floor(W/I)+2)"],
-        groups=[dict(mod="v2", pkg="limit", overlay="harness/v2/limit", harness="^VerifC04_limit_run", params=_LIM)])
+        groups=[dict(mod="v2", pkg="limit", overlay="harness/v2/limit", harness="^VerifC04_limit_run", params=_LIM, timeout=dict(quick=30000, thorough=120000))])
 
 # ---- priority discipline ------------------------------------------------------------------------------
 
